@@ -31,6 +31,7 @@ type Obligation struct {
 
 type Verifier struct {
 	skipLabels, onlyLabels []string
+	agree                  bool
 	c                      *TermCtx
 	tm                     *TypeMap
 	fset                   *token.FileSet
@@ -519,6 +520,41 @@ func (v *Verifier) LoadSpecFile(path string, pkgPath string, lib bool) error {
 	}
 	for _, f := range sf.Funcs {
 		f.Lib = lib
+		if f.Extend {
+			prev, ok := v.specs[f.Key]
+			if !ok {
+				if lib {
+					continue // the extended dependency is not specified in this configuration
+				}
+				return fmt.Errorf("%s:%d: extend func %s: no contract to extend", path, f.Line, f.Key)
+			}
+			if len(f.ParamNames) > 0 || f.Pure || f.Def != nil || f.Trusted || f.Inline || f.Opaque || f.Fresh {
+				return fmt.Errorf("%s:%d: extend func %s: only requires / ensures / modifies / let / call / loop / allow clauses can be added", path, f.Line, f.Key)
+			}
+			if prev.Pure || prev.Def != nil {
+				return fmt.Errorf("%s:%d: extend func %s: a pure / defined function cannot be extended", path, f.Line, f.Key)
+			}
+			prev.Requires = append(prev.Requires, f.Requires...)
+			prev.Ensures = append(prev.Ensures, f.Ensures...)
+			prev.Modifies = append(prev.Modifies, f.Modifies...)
+			prev.Lets = append(prev.Lets, f.Lets...)
+			prev.Ghosts = append(prev.Ghosts, f.Ghosts...)
+			prev.Uses = append(prev.Uses, f.Uses...)
+			for k, cl := range f.LoopInv {
+				prev.LoopInv[k] = append(prev.LoopInv[k], cl...)
+			}
+			for k, cl := range f.LoopUse {
+				prev.LoopUse[k] = append(prev.LoopUse[k], cl...)
+			}
+			for k, cl := range f.CallReq {
+				prev.CallReq[k] = append(prev.CallReq[k], cl...)
+			}
+			for k := range f.Allow {
+				prev.Allow[k] = true
+			}
+			v.notes[fmt.Sprintf("contract of %s (%s) extended in %s", f.Key, prev.File, path)] = true
+			continue
+		}
 		if prev, dup := v.specs[f.Key]; dup {
 			if lib && prev.Lib {
 				// the same dependency function specified in two lib spec files: the first one (core directory first) wins
